@@ -1,1 +1,255 @@
-/-! Property theorems for C20 (stub: not built yet). -/
+import UsualProofs.C20.Progress
+import UsualProofs.C20.Safety
+import UsualProofs.C20.Exec
+/-! # C20 — the compat getaddrinfo_a completes every request exactly once under any schedule
+
+Model: `Usual.C20` (lean/Usual/C20/Gaia.lean), the statements of the repaired usual/netdb.c as a
+transition system over any number of submitting threads and the resolver thread.  Every theorem
+below quantifies over ALL reachable states, i.e. all interleavings (`Reach Cfg.fixed ga`), for an
+arbitrary resolution oracle `ga` (what getaddrinfo returns for given arguments).  The tie to the
+C code is trace validation (checks/C20.py): event traces of the real code under perturbed
+schedules are replayed through `Usual.C20.stepFn`, which `stepFn_sound` proves to be `Step`. -/
+namespace UsualProps.C20
+open Usual.C20 UsualProofs.C20
+
+/-- a schedule: submitter `i` posts batch `b` of `n` items with GAI_NOWAIT (creating the context
+    when `mk`) — used for the concrete instances below -/
+def subNowait (i b n : Nat) (sev : Sev) (mk : Bool) : List (Tid × Act) :=
+  [(.sub i, .begin b n sev .nowait (fun k => k)), (.sub i, .ctxAcquire), (.sub i, .ctxCheck)] ++
+  (if mk then [(.sub i, .ctxMake)] else []) ++
+  [(.sub i, .ctxRelease), (.sub i, .alloc)] ++ List.replicate n (.sub i, .mark) ++
+  [(.sub i, .markDone), (.sub i, .qAcquire), (.sub i, .append), (.sub i, .qRelease), (.sub i, .signal)]
+
+/-- the resolver takes one request of `n` items through to free -/
+def workOne (n : Nat) (first : Bool) : List (Tid × Act) :=
+  [(.worker, if first then .wkAcquire else .wkReacquire), (.worker, .wkPop), (.worker, .wkRelease)] ++
+  List.replicate n (.worker, .wkResolve) ++ [(.worker, .wkAll), (.worker, .wkNotify), (.worker, .wkFree)]
+
+def gaEx : Nat → Int := fun k => if k = 2 then -2 else 0
+
+/-- two submitters, batches 7 and 9 of three items each, interleaved with the resolver:
+    submitter 1 posts batch 7, the resolver handles two items of it while submitter 2 posts batch 9 -/
+def schedA : List (Tid × Act) :=
+  subNowait 1 7 3 .thread true ++
+  [(.worker, .wkAcquire), (.worker, .wkPop), (.worker, .wkRelease), (.worker, .wkResolve)] ++
+  subNowait 2 9 3 .signal false ++ [(.worker, .wkResolve)]
+
+/-- … and on to quiescence -/
+def schedB : List (Tid × Act) :=
+  schedA ++ [(.worker, .wkResolve), (.worker, .wkAll), (.worker, .wkNotify), (.worker, .wkFree),
+    (.worker, .wkAcquire), (.worker, .wkPop), (.worker, .wkRelease), (.worker, .wkResolve),
+    (.worker, .wkResolve), (.worker, .wkResolve), (.worker, .wkAll), (.worker, .wkNotify), (.worker, .wkFree),
+    (.worker, .wkAcquire), (.worker, .wkWait)]
+
+def stA : S := (run Cfg.fixed gaEx init schedA).getD init
+def stB : S := (run Cfg.fixed gaEx init schedB).getD init
+
+theorem stA_reach : Reach Cfg.fixed gaEx stA :=
+  run_reach' (l := schedA) (by decide +kernel)
+theorem stB_reach : Reach Cfg.fixed gaEx stB :=
+  run_reach' (l := schedB) (by decide +kernel)
+
+/-! ## no request lost, duplicated or read from uninitialised memory -/
+
+/-- Every item is resolved at most once; the resolver never reads an uninitialised list slot;
+    every item of a finished batch was resolved exactly once and holds getaddrinfo's result for
+    its arguments; and when nothing is pending every submitted batch has finished. -/
+theorem no_loss_no_dup {ga : Nat → Int} (s : S) (h : Reach Cfg.fixed ga s) :
+    (∀ b j, s.resolved b j ≤ 1) ∧ s.badRead = false ∧
+    (∀ b j, s.loc b = .finished → j < s.nOf b →
+       s.resolved b j = 1 ∧ s.status b j = .done ∧ s.result b j = some (ga (s.argOf b j))) ∧
+    (¬ Pending s → ∀ b, s.loc b ≠ .unused → s.loc b = .finished) := by
+  have hi := reach_inv h
+  refine ⟨fun b j => ?_, hi.bad, fun b j hb hj => ?_, fun hp b hb => quiescent_finished hi hp b hb⟩
+  · rw [hi.r_cnt]; split <;> omega
+  · have hd := (hi.i_fin b hb j hj).1
+    exact ⟨by rw [hi.r_cnt, if_pos hd], hd, (hi.r_res b j hd).1⟩
+
+example : ¬ Pending stB ∧ stB.loc 7 = .finished ∧ stB.loc 9 = .finished ∧ stB.nOf 9 = 3 ∧
+    stB.resolved 9 2 = 1 ∧ stB.result 9 2 = some (-2) ∧ stB.result 7 1 = some 0 := by
+  refine ⟨?_, by decide +kernel, by decide +kernel, by decide +kernel, by decide +kernel,
+    by decide +kernel, by decide +kernel⟩
+  have hq := (no_loss_no_dup stB stB_reach).2.2.2
+  intro hp
+  rcases hp with ⟨i, hi⟩ | hq' | hw
+  · have h1 : ∀ i, stB.spc i = .idle := by
+      intro i
+      by_cases e1 : i = 1
+      · subst e1; decide +kernel
+      · by_cases e2 : i = 2
+        · subst e2; decide +kernel
+        · simp [stB, schedB, schedA, subNowait, run, stepFn, init, e1, e2, publish, notifyB]
+    exact hi (h1 i)
+  · exact hq' (by decide +kernel)
+  · exact hw (by decide +kernel)
+
+/-! ## gai_error: EAI_INPROGRESS from submission until published, final afterwards -/
+
+/-- Once a batch has been submitted (it is queued, with the resolver, or finished) each of its
+    items is either EAI_INPROGRESS and not yet resolved, or final with exactly one resolution and
+    getaddrinfo's result; queued items are all EAI_INPROGRESS; finished items are all final. -/
+theorem inprogress_until_published {ga : Nat → Int} (s : S) (h : Reach Cfg.fixed ga s) (b j : Nat)
+    (hj : j < s.nOf b) (hl : s.loc b = .queued ∨ s.loc b = .worker ∨ s.loc b = .finished) :
+    ((s.status b j = .inProg ∧ s.resolved b j = 0 ∧ s.loc b ≠ .finished) ∨
+     (s.status b j = .done ∧ s.resolved b j = 1 ∧ s.result b j = some (ga (s.argOf b j)))) ∧
+    (s.loc b = .queued → s.status b j = .inProg) := by
+  have hi := reach_inv h
+  have hfin : ∀ {x}, s.status b j = x → x = .done →
+      s.status b j = .done ∧ s.resolved b j = 1 ∧ s.result b j = some (ga (s.argOf b j)) := by
+    intro x hx e; subst e
+    exact ⟨hx, by rw [hi.r_cnt, if_pos hx], (hi.r_res b j hx).1⟩
+  rcases hl with hl | hl | hl
+  · have hq := ((hi.i_q b hl).2 j hj).2 (Nat.zero_le _)
+    refine ⟨Or.inl ⟨hq.1, by rw [hi.r_cnt, hq.1]; simp, by simp [hl]⟩, fun _ => hq.1⟩
+  · refine ⟨?_, fun e => by simp [hl] at e⟩
+    have ho := (hi.l_w b).2 hl
+    cases hw : s.wpc <;> simp [hw, WPc.owns] at ho
+    · subst ho
+      have hq := ((hi.i_w _ 0 .inProg .inProg (by simp [hw, wExpect])).2 j hj).2 (Nat.zero_le _)
+      exact Or.inl ⟨hq.1, by rw [hi.r_cnt, hq.1]; simp, by simp [hl]⟩
+    · next b' k =>
+      subst ho
+      have hq := (hi.i_w _ k .done .inProg (by simp [hw, wExpect])).2 j hj
+      by_cases e : j < k
+      · exact Or.inr (hfin (hq.1 e).1 rfl)
+      · have h2 := (hq.2 (by omega)).1
+        exact Or.inl ⟨h2, by rw [hi.r_cnt, h2]; simp, by simp [hl]⟩
+    · subst ho
+      have hq := ((hi.i_w _ 0 .done .done (by simp [hw, wExpect])).2 j hj).2 (Nat.zero_le _)
+      exact Or.inr (hfin hq.1 rfl)
+    · subst ho
+      have hq := ((hi.i_w _ 0 .done .done (by simp [hw, wExpect])).2 j hj).2 (Nat.zero_le _)
+      exact Or.inr (hfin hq.1 rfl)
+  · exact ⟨Or.inr (hfin (hi.i_fin b hl j hj).1 rfl), fun e => by simp [hl] at e⟩
+
+/-- A final status is never overwritten (in particular not by a late EAI_INPROGRESS), and an
+    EAI_INPROGRESS item stays so until it becomes final. -/
+theorem status_monotone {ga : Nat → Int} (s s' : S) (t : Tid) (a : Act) (h : Reach Cfg.fixed ga s)
+    (hs : Step Cfg.fixed ga s t a s') (b j : Nat) :
+    (s.status b j = .done → s'.status b j = .done ∧ s'.result b j = s.result b j) ∧
+    (s.status b j = .inProg → s'.status b j = .inProg ∨ s'.status b j = .done) :=
+  ⟨done_stable (reach_inv h) hs b j, inprog_next hs b j⟩
+
+-- in stA batch 7 is with the resolver, items 0,1 final and item 2 still in progress; batch 9 queued
+example : stA.loc 7 = .worker ∧ stA.status 7 0 = .done ∧ stA.status 7 1 = .done ∧ stA.status 7 2 = .inProg ∧
+    stA.loc 9 = .queued ∧ stA.status 9 0 = .inProg ∧ stA.status 9 2 = .inProg ∧ stA.nOf 7 = 3 := by
+  decide +kernel
+
+/-! ## notification: exactly once, after all results -/
+
+/-- No batch is notified twice; a notified batch has all its results published (each by exactly
+    one resolution); every finished batch has been notified exactly once. -/
+theorem notify_once_after_all {ga : Nat → Int} (s : S) (h : Reach Cfg.fixed ga s) (b : Nat) :
+    s.notified b ≤ 1 ∧
+    (s.notified b = 1 → ∀ j, j < s.nOf b → s.status b j = .done ∧ s.resolved b j = 1) ∧
+    (s.loc b = .finished → s.notified b = 1) := by
+  have hi := reach_inv h
+  refine ⟨by rw [hi.n_cnt]; split <;> omega, fun hn j hj => ?_, fun hl => by rw [hi.n_cnt]; simp [hl]⟩
+  have hd : s.status b j = .done := by
+    rw [hi.n_cnt] at hn
+    split at hn
+    · next hc =>
+      rcases hc with hc | hc
+      · exact (hi.i_fin b hc j hj).1
+      · exact (((hi.i_w b 0 .done .done (by simp [hc, wExpect])).2 j hj).2 (Nat.zero_le _)).1
+    · omega
+  exact ⟨hd, by rw [hi.r_cnt, if_pos hd]⟩
+
+/-- The step that notifies `b` finds its count at 0, leaves it at 1, and every result of `b` was
+    already published, by the notifying thread itself. -/
+theorem notify_step_after_all {ga : Nat → Int} (s s' : S) (t : Tid) (a : Act) (h : Reach Cfg.fixed ga s)
+    (hs : Step Cfg.fixed ga s t a s') (b : Nat) (hn : s'.notified b ≠ s.notified b) :
+    s.notified b = 0 ∧ s'.notified b = 1 ∧ s'.notBy b = t ∧
+      ∀ j, j < s.nOf b → s.status b j = .done ∧ s.resolved b j = 1 ∧ s.pubBy b j = t :=
+  notify_step (reach_inv h) hs b hn
+
+example : stA.notified 7 = 0 ∧ stB.notified 7 = 1 ∧ stB.notified 9 = 1 ∧ stB.sevOf 9 = .signal := by
+  decide +kernel
+
+/-! ## the queue is touched only under the lock -/
+
+/-- Any step that reads or writes ctx->req_list (append, pop, the emptiness test before
+    cond_wait), or changes the queue in any way, is taken by the thread holding ctx->lock; and the
+    lock has one holder by construction (`qlock : Option Tid`). -/
+theorem queue_mutex {ga : Nat → Int} (s s' : S) (t : Tid) (a : Act) (h : Reach Cfg.fixed ga s)
+    (hs : Step Cfg.fixed ga s t a s') (hq : a.touchesQueue = true ∨ s'.queue ≠ s.queue) :
+    s.qlock = some t :=
+  queue_by_holder (reach_inv h) hs hq
+
+-- non-vacuity: in stA the resolver is outside the lock; submitter 3 can start a call, and the
+-- append step of a submitter is taken with the lock held
+example : ∃ s1 s2, Reach Cfg.fixed gaEx s1 ∧ Step Cfg.fixed gaEx s1 (.sub 3) .append s2 ∧
+    s1.qlock = some (.sub 3) ∧ s2.queue = [9, 11] := by
+  let l := schedA ++ [(.sub 3, .begin 11 3 .none .nowait (fun k => k)), (.sub 3, .ctxAcquire),
+    (.sub 3, .ctxCheck), (.sub 3, .ctxRelease), (.sub 3, .alloc), (.sub 3, .mark), (.sub 3, .mark),
+    (.sub 3, .mark), (.sub 3, .markDone), (.sub 3, .qAcquire)]
+  have h1 : Reach Cfg.fixed gaEx ((run Cfg.fixed gaEx init l).getD init) :=
+    run_reach' (l := l) (by decide +kernel)
+  refine ⟨_, (stepFn Cfg.fixed gaEx ((run Cfg.fixed gaEx init l).getD init) (.sub 3) .append).getD init,
+    h1, stepFn_sound' (by decide +kernel), by decide +kernel, by decide +kernel⟩
+
+/-! ## whoever is notified sees published results -/
+
+/-- For a notified batch every publish was done by the thread that delivers the notification,
+    strictly earlier on the logical clock: publish → notify is program order of one thread, hence
+    happens-before; a callback runs in that thread, a signal is sent by it afterwards. -/
+theorem results_visible_to_notified {ga : Nat → Int} (s : S) (h : Reach Cfg.fixed ga s) (b : Nat)
+    (hn : 1 ≤ s.notified b) (j : Nat) (hj : j < s.nOf b) :
+    s.status b j = .done ∧ s.pubBy b j = s.notBy b ∧ s.pubAt b j < s.notAt b := by
+  have hi := reach_inv h
+  have hn' := hi.n_cnt b
+  split at hn'
+  · next hc =>
+    rcases hc with hc | hc
+    · exact hi.i_fin b hc j hj
+    · have hp := ((hi.i_w b 0 .done .done (by simp [hc, wExpect])).2 j hj).2 (Nat.zero_le _)
+      have hf := hi.n_free b hc
+      exact ⟨hp.1, by rw [hp.2 rfl, hf.1], hf.2 j hj⟩
+  · omega
+
+example : stB.pubBy 9 2 = .worker ∧ stB.notBy 9 = .worker ∧ stB.pubAt 9 2 < stB.notAt 9 ∧
+    stB.pubAt 7 0 < stB.pubAt 7 2 ∧ stB.notAt 7 < stB.pubAt 9 0 := by
+  decide +kernel
+
+/-! ## progress -/
+
+/-- No reachable state with pending work is terminal: some thread can take a step that is
+    neither a new getaddrinfo_a call nor a spurious wake-up (so in particular a waiting resolver
+    with a non-empty queue always has its wake-up signal still to come). -/
+theorem no_deadlock {ga : Nat → Int} (s : S) (h : Reach Cfg.fixed ga s) (hp : Pending s) :
+    ∃ t a s', a.isEnv = false ∧ Step Cfg.fixed ga s t a s' :=
+  pending_enabled (reach_inv h) hp
+
+example : Pending stA := Or.inr (Or.inl (by decide +kernel))
+
+/-- The lazily created context exists at most once. -/
+theorem one_context {ga : Nat → Int} (s : S) (h : Reach Cfg.fixed ga s) : s.nctx ≤ 1 := by
+  rw [(reach_inv h).c_n]; split <;> omega
+
+example : stA.nctx = 1 := by decide +kernel
+
+/-! ## the pinned code (`Cfg.orig`) violates the property: F13 -/
+
+/-- memcpy of ONE pointer: with a batch of three the resolver reads list[1] uninitialised. -/
+theorem orig_reads_uninitialised : ∃ s, Reach Cfg.orig gaEx s ∧ s.badRead = true := by
+  let l := subNowait 1 7 3 .thread true ++
+    [(.worker, .wkAcquire), (.worker, .wkPop), (.worker, .wkRelease), (.worker, .wkResolve), (.worker, .wkResolve)]
+  exact ⟨(run Cfg.orig gaEx init l).getD init,
+    run_reach' (l := l) (by decide +kernel), by decide +kernel⟩
+
+/-- `_state` is not set at submission: after getaddrinfo_a has returned, gai_error is stale. -/
+theorem orig_not_inprogress : ∃ s, Reach Cfg.orig gaEx s ∧ s.spc 1 = .idle ∧ s.loc 7 = .queued ∧
+    s.status 7 0 = .notSub := by
+  let l := subNowait 1 7 3 .thread true
+  exact ⟨(run Cfg.orig gaEx init l).getD init,
+    run_reach' (l := l) (by decide +kernel), by decide +kernel⟩
+
+/-- unsynchronised `if (!ctx) ctx = create()`: two first-time submitters both create a context. -/
+theorem orig_two_contexts : ∃ s, Reach Cfg.orig gaEx s ∧ s.nctx = 2 := by
+  let l : List (Tid × Act) := [(.sub 1, .begin 7 3 .none .nowait (fun k => k)), (.sub 2, .begin 9 3 .none .nowait (fun k => k)),
+    (.sub 1, .ctxAcquire), (.sub 2, .ctxAcquire), (.sub 1, .ctxCheck), (.sub 2, .ctxCheck),
+    (.sub 1, .ctxMake), (.sub 2, .ctxMake)]
+  exact ⟨(run Cfg.orig gaEx init l).getD init,
+    run_reach' (l := l) (by decide +kernel), by decide +kernel⟩
+
+end UsualProps.C20
